@@ -281,6 +281,11 @@ func (Garbage) Run(c *orch.Case) *orch.Outcome {
 	switch {
 	case in.Class == "fuzz":
 		enc = in.Blob
+	case in.Class == "alg_slot":
+		enc = algSlot(in.Base, in.Pos, in.Blob, isDec)
+	case in.Class == "decl_encoding":
+		doc := append([]byte(`<?xml version="1.0" encoding="`+in.Blob+`"?>`), bases[in.Base]...)
+		enc = idp.Encode(doc, in.Pos == 1)
 	case strings.HasPrefix(in.Class, "sig_") || strings.HasPrefix(in.Class, "enc_"):
 		enc = structural(in.Class)
 	case in.Base != "" && in.Class != "" && isPositional(in.Class):
@@ -395,7 +400,122 @@ func (Garbage) Extra(tier string, seed int64) []orch.Case {
 		in, _ := json.Marshal(zInput{Entry: "decryptBytes", Class: "bitflip", Base: "ssoenc", Pos: off, Of: -1})
 		out = append(out, orch.Case{Src: "sweep", Cfg: json.RawMessage(`{"sp":"normal"}`), Input: in, Seed: seed})
 	}
+	// every algorithm identifier the code or the standards know, in every place where a message names an algorithm
+	uris := algorithmURIs()
+	for slot, sl := range algSlots {
+		entries := map[string][]string{"ssoenc": {"validate", "info", "decryptBytes", "decrypt"}, "sso": {"validate", "info"}}[sl.base]
+		for _, u := range uris {
+			for _, entry := range entries {
+				in, _ := json.Marshal(zInput{Entry: entry, Class: "alg_slot", Base: sl.base, Pos: slot, Of: -1, Blob: u})
+				out = append(out, orch.Case{Src: "algs", Cfg: json.RawMessage(`{"sp":"normal"}`), Input: in, Seed: seed})
+			}
+		}
+	}
+	// every genuine message behind an XML declaration that names an encoding
+	for base, entries := range entryFor {
+		for _, label := range declEncodings {
+			for _, entry := range entries {
+				for deflate := 0; deflate < 2; deflate++ {
+					in, _ := json.Marshal(zInput{Entry: entry, Class: "decl_encoding", Base: base, Pos: deflate, Of: -1, Blob: label})
+					out = append(out, orch.Case{Src: "decl", Cfg: json.RawMessage(`{"sp":"normal"}`), Input: in, Seed: seed})
+				}
+			}
+		}
+	}
 	return append(out, fuzzCases(tier, seed)...)
+}
+
+var declEncodings = []string{"UTF-8", "utf-8", "UTF8", "utf8", "UTF-16", "UTF-16LE", "UTF-16BE", "UTF-32", "ISO-8859-1", "iso-8859-15", "latin1", "windows-1252",
+	"us-ascii", "ASCII", "EBCDIC-CP-US", "UTF-7", "UTF-9", "WTF-8", "", " ", "x", "UTF-8 ", "KOI8-R", "Shift_JIS", "GB2312", "Big5", "ISO-10646-UCS-2", "unicode"}
+
+type algSlotDef struct {
+	base, parent, name, space string // element <space:name> under parent (created when absent), attribute Algorithm
+}
+
+var algSlots = []algSlotDef{
+	{"ssoenc", "./EncryptedAssertion/EncryptedData", "EncryptionMethod", "xenc"},
+	{"ssoenc", "./EncryptedAssertion/EncryptedData/KeyInfo/EncryptedKey", "EncryptionMethod", "xenc"},
+	{"ssoenc", "./EncryptedAssertion/EncryptedData/KeyInfo/EncryptedKey/EncryptionMethod", "DigestMethod", "ds"},
+	{"ssoenc", "./EncryptedAssertion/EncryptedData/KeyInfo/EncryptedKey/EncryptionMethod", "MGF", "xenc11"},
+	{"sso", "./Signature/SignedInfo", "SignatureMethod", "ds"},
+	{"sso", "./Signature/SignedInfo", "CanonicalizationMethod", "ds"},
+	{"sso", "./Signature/SignedInfo/Reference", "DigestMethod", "ds"},
+	{"sso", "./Signature/SignedInfo/Reference/Transforms", "Transform", "ds"},
+}
+
+// algSlot returns the genuine message with one algorithm identifier replaced.
+func algSlot(base string, slot int, uri string, bareEnc bool) string {
+	sl := algSlots[slot]
+	d := etree.NewDocument()
+	if err := d.ReadFromBytes(garbageBases()[base]); err != nil {
+		panic(err)
+	}
+	parent := d.Root().FindElement(sl.parent)
+	if parent == nil {
+		orch.Fatal("garbage: alg slot %d: no %s", slot, sl.parent)
+	}
+	el := parent.SelectElement(sl.name)
+	if el == nil {
+		el = etree.NewElement(sl.name)
+		el.Space = sl.space
+		el.CreateAttr("xmlns:"+sl.space, map[string]string{"ds": idp.NSDsig, "xenc": idp.NSXenc, "xenc11": "http://www.w3.org/2009/xmlenc11#"}[sl.space])
+		parent.AddChild(el)
+	}
+	el.CreateAttr("Algorithm", uri)
+	if bareEnc {
+		ea := d.Root().FindElement("./EncryptedAssertion")
+		// the element on its own needs the namespace declarations it inherited
+		for _, a := range d.Root().Attr {
+			if a.Space == "xmlns" && ea.SelectAttr("xmlns:"+a.Key) == nil {
+				ea.CreateAttr("xmlns:"+a.Key, a.Value)
+			}
+		}
+		nd := etree.NewDocument()
+		nd.SetRoot(ea.Copy())
+		b, _ := nd.WriteToBytes()
+		return base64.StdEncoding.EncodeToString(b)
+	}
+	b, _ := d.WriteToBytes()
+	return base64.StdEncoding.EncodeToString(b)
+}
+
+// algorithmURIs: the URI-shaped string literals of the library source under check plus the identifiers of the XML
+// Signature / XML Encryption recommendations and RFC 6931.
+func algorithmURIs() []string {
+	seen := map[string]bool{}
+	var out []string
+	add := func(u string) {
+		if !seen[u] {
+			seen[u] = true
+			out = append(out, u)
+		}
+	}
+	for _, l := range SourceLiterals() {
+		if (strings.HasPrefix(l, "http://") || strings.HasPrefix(l, "urn:")) && !strings.ContainsAny(l, " \"<>") {
+			add(l)
+		}
+	}
+	for _, f := range []string{"aes128-cbc", "aes192-cbc", "aes256-cbc", "tripledes-cbc", "rsa-1_5", "rsa-oaep-mgf1p", "sha256", "sha512", "ripemd160",
+		"kw-aes128", "kw-aes192", "kw-aes256", "kw-tripledes", "dh", "Element", "Content"} {
+		add("http://www.w3.org/2001/04/xmlenc#" + f)
+	}
+	for _, f := range []string{"aes128-gcm", "aes192-gcm", "aes256-gcm", "rsa-oaep", "mgf1sha1", "mgf1sha224", "mgf1sha256", "mgf1sha384", "mgf1sha512", "ConcatKDF", "pbkdf2"} {
+		add("http://www.w3.org/2009/xmlenc11#" + f)
+	}
+	for _, f := range []string{"sha1", "rsa-sha1", "dsa-sha1", "hmac-sha1", "enveloped-signature", "base64", "Object", "Manifest"} {
+		add("http://www.w3.org/2000/09/xmldsig#" + f)
+	}
+	for _, f := range []string{"md5", "sha224", "sha384", "rsa-md5", "rsa-sha224", "rsa-sha256", "rsa-sha384", "rsa-sha512", "rsa-ripemd160", "ecdsa-sha1", "ecdsa-sha224",
+		"ecdsa-sha256", "ecdsa-sha384", "ecdsa-sha512", "hmac-md5", "hmac-sha256", "hmac-sha512", "rsa-pss", "sha256-rsa-MGF1", "whirlpool", "sha3-256"} {
+		add("http://www.w3.org/2001/04/xmldsig-more#" + f)
+	}
+	for _, u := range []string{"http://www.w3.org/2001/10/xml-exc-c14n#", "http://www.w3.org/2001/10/xml-exc-c14n#WithComments", "http://www.w3.org/TR/2001/REC-xml-c14n-20010315",
+		"http://www.w3.org/TR/2001/REC-xml-c14n-20010315#WithComments", "http://www.w3.org/2006/12/xml-c14n11", "http://www.w3.org/2006/12/xml-c14n11#WithComments",
+		"http://www.w3.org/TR/1999/REC-xpath-19991116", "http://www.w3.org/2002/06/xmldsig-filter2", "http://www.w3.org/TR/1999/REC-xslt-19991116",
+		"http://www.w3.org/2007/05/xmldsig-more#sha3-512", "http://www.w3.org/2009/xmldsig11#dsa-sha256", "", "urn:nope", "#", "sha256"} {
+		add(u)
+	}
+	return out
 }
 
 func (Garbage) Corrupt(c *orch.Case, o *orch.Outcome) (any, string, bool) {
